@@ -374,14 +374,36 @@ func c09Exec(c c09Case, st *lab.Stats) *lab.Fail {
 			return lab.Failf("request-failed", "tag %d: no answer to the lingering request: %v", s.tag, err)
 		}
 		s.cl.Close()
-		// new connections arrive while the handler of the closed one is still running
-		for k := 0; k < 4; k++ {
-			time.Sleep(time.Duration(c.LingerMs/5) * time.Millisecond)
-			if len(open) < 64 {
-				if f := openOne(); f != nil {
+		// new connections arrive while the handler of the closed one is still running: a few early, and - when most of
+		// the lingering time has passed - more than any pool or free list of connection state is likely to hold
+		var temps []*c09Slot
+		defer func() {
+			for _, ts := range temps {
+				ts.cl.Close()
+			}
+		}()
+		burst := func(n int) *lab.Fail {
+			for k := 0; k < n; k++ {
+				cl, err := lab.Dial(srv.Addr)
+				if err != nil {
+					return lab.Failf("dial-failed", "%v", err)
+				}
+				ts := &c09Slot{cl: cl, tag: nextTag}
+				nextTag++
+				temps = append(temps, ts)
+				if f := request(ts, "bind"); f != nil {
 					return f
 				}
 			}
+			return nil
+		}
+		time.Sleep(time.Duration(c.LingerMs/5) * time.Millisecond)
+		if f := burst(3); f != nil {
+			return f
+		}
+		time.Sleep(time.Duration(c.LingerMs*3/5) * time.Millisecond)
+		if f := burst(70); f != nil {
+			return f
 		}
 		time.Sleep(time.Duration(c.LingerMs/4) * time.Millisecond)
 		mu.Lock()
@@ -434,7 +456,7 @@ func c09Exec(c c09Case, st *lab.Stats) *lab.Fail {
 func TestC09(t *testing.T) {
 	lab.Prop[c09Case]{
 		ID: "C09", Part: "ids",
-		Rule: "rapid action sequences (up to 60 steps) over ONE long-lived server: open / open several at once / request (any operation) / long session of 20..300 pipelined requests / StartTLS upgrade of an open connection / concurrent burst on all open connections / close (FIN, RST, Unbind; waits for OnClose) / a silent connection that connects and closes without a request (FIN, RST, half a frame + FIN; its ID is the one OnClose reports) / a second gldap server that starts, serves 0..3 connections and stops in the same process, up to 64 connections open at once; about one sequence in 50 ends with a handler that keeps running 1.5..6 s after its client closed, while new connections are accepted, and asks for its ConnectionID again; model = tag -> ConnectionID map: every request of a connection reports the same positive ID, IDs are pairwise different over the server's whole life (also after closes), OnClose delivers exactly the closed connection's ID, once; non-trivial = the sequence contains a close followed by an open while another connection is still open; distinct by hash",
+		Rule: "rapid action sequences (up to 60 steps) over ONE long-lived server: open / open several at once / request (any operation) / long session of 20..300 pipelined requests / StartTLS upgrade of an open connection / concurrent burst on all open connections / close (FIN, RST, Unbind; waits for OnClose) / a silent connection that connects and closes without a request (FIN, RST, half a frame + FIN; its ID is the one OnClose reports) / a second gldap server that starts, serves 0..3 connections and stops in the same process, up to 64 connections open at once; about one sequence in 50 ends with a handler that keeps running 1.5..6 s after its client closed, while 73 new connections are accepted (most of them late), and asks for its ConnectionID again and again; model = tag -> ConnectionID map: every request of a connection reports the same positive ID, IDs are pairwise different over the server's whole life (also after closes), OnClose delivers exactly the closed connection's ID, once; non-trivial = the sequence contains a close followed by an open while another connection is still open; distinct by hash",
 		Gen: func(t *rapid.T) c09Case {
 			var c c09Case
 			n := rapid.IntRange(2, 60).Draw(t, "nsteps")
